@@ -144,7 +144,11 @@ def inline(X, fn, mapping=None, ctx=(), chain=(), depth=0, stop=()):
             names = X.params.get(ev.callee, [])
             sub = {}
             for n, a in zip(names, args):
-                sub[n] = a
+                if isinstance(n, tuple):
+                    for j, nj in enumerate(n):      # a tuple pattern as parameter: its names are the components of the argument
+                        sub[nj] = og.project(a, j, len(n)) if isinstance(a, tuple) else ("unknown", "tuple parameter")
+                elif n is not None:
+                    sub[n] = a
             yield from inline(X, ev.callee, sub, ectx, chain + (fn,), depth + 1, stop)
 
 
